@@ -60,7 +60,7 @@ OPS = [
     (r"\btrue\b", "false"), (r"\bfalse\b", "true"),
     (r"\|= ", "&= "), (r" \| ", " & "), (r" & ", " | "),
     (r"\.is_some\(\)", ".is_none()"), (r"\.is_none\(\)", ".is_some()"), (r"\.is_empty\(\)", ".len() == 1"),
-    (r"\b0\b", "1"), (r"\b1\b", "0"), (r"\b2\b", "3"),
+    (r"(?<![.\w])0(?![.\w])", "1"), (r"(?<![.\w])1(?![.\w])", "0"), (r"(?<![.\w])2(?![.\w])", "3"),
     (r"as u32", "as u16 as u32"), (r"\bu32::MAX\b", "u16::MAX as u32"),
     (r"\+=", "-="), (r"-=", "+="), (r" \+ ", " - "), (r" - ", " + "),
     (r"Some\(([a-z_]+)\) =>", r"Some(\1) if false =>"),
@@ -68,7 +68,7 @@ OPS = [
     (r"<<", ">>"), (r"!\(", "("),
 ]
 
-SKIP_LINE = re.compile(r"^\s*(//|#\[|log::|debug_assert|asan::|msan::|use |pub use |mod |\}|\{|$)|verif::|a10_verif|unreachable!|panic!|f\.field|f\.debug_|write!\(|const fn|\bconst [A-Z_]+:|doc\s*=")
+SKIP_LINE = re.compile(r"^\s*(//|#\[|log::|debug_assert|asan::|msan::|use |pub use |mod |\}|\{|$)|verif::|a10_verif|unreachable!|panic!|\.field\(|f\.debug_|write!\(|stringify!|concat!|=> "|const fn|\bconst [A-Z_]+:|doc\s*=")
 
 
 def sh(cmd, cwd=None, timeout=None, env=None):
